@@ -14,6 +14,7 @@ import (
 	"fmt"
 	"hash/crc32"
 	"strings"
+	"time"
 
 	"github.com/blinklabs-io/gouroboros/ledger/common"
 	"github.com/btcsuite/btcd/btcutil/base58"
@@ -21,7 +22,7 @@ import (
 )
 
 func init() {
-	register(&Prop{ID: "C05", Gen: genC05, Run: runC05})
+	register(&Prop{ID: "C05", Gen: genC05, Run: runC05, Timeout: 10 * time.Minute})
 }
 
 func c05ErrClass(err error, byronPath bool) string {
